@@ -254,28 +254,61 @@ func init() {
 		}
 		for wk, v := range s.Watch {
 			if m.ver[wk] != v {
+				if m.abaTolerant && s.WatchMiss[wk] && m.dbs[wk.db][wk.key] == nil {
+					continue
+				}
 				s.resetTx()
 				return eNil()
 			}
 		}
 		q := s.Queue
 		s.resetTx()
+		base, bs := m.Clone(), s.Clone()
 		sub := make([]Expect, 0, len(q))
+		lazy := false
 		for _, c := range q {
 			name := strings.ToLower(c[0])
 			r := m.exec1(s, name, c, true)
+			if r.Resolve != nil {
+				lazy = true
+			}
 			sub = append(sub, r)
 		}
 		m.purge()
 		e := eArr(sub...)
-		e.Resolve = func(got Value) {
-			if got.K != KArray || len(got.A) != len(sub) {
-				return
+		if !lazy {
+			return e
+		}
+		// A queued command whose outcome the model leaves open (Resolve) may
+		// decide what later queued commands see: the queue is re-run on a
+		// copy of the state before EXEC, element by element, each open
+		// outcome being resolved from the observed reply before the next
+		// command is modelled; the result replaces the speculative state.
+		var done *Model
+		var doneS *Sess
+		shown := e.String()
+		e = ePred("EXEC "+shown, func(got Value) error {
+			if got.K != KArray || len(got.A) != len(q) {
+				return errf("expected an array of %d replies", len(q))
 			}
-			for i := range sub {
-				if sub[i].Resolve != nil {
-					sub[i].Resolve(got.A[i])
+			mm, ss := base.Clone(), bs.Clone()
+			for i, c := range q {
+				r := mm.exec1(ss, strings.ToLower(c[0]), c, true)
+				if err := r.Match(got.A[i]); err != nil {
+					return errf("queued command %d (%s): %v", i, c[0], err)
 				}
+				if r.Resolve != nil {
+					r.Resolve(got.A[i])
+				}
+			}
+			mm.purge()
+			done, doneS = mm, ss
+			return nil
+		})
+		e.Resolve = func(got Value) {
+			if done != nil {
+				*m = *done
+				*s = *doneS
 			}
 		}
 		return e
